@@ -752,7 +752,8 @@ fn sweep_many_types(ctx: &Ctx, thorough: bool) -> Tally {
     let mut work = vec![];
     for &k in ks {
         for pat in 0..5usize {
-            for rule_kind in 0..2usize {
+            for rule_kind in 0..4usize {
+                // rule_kind 2, 3: the same with a leap table (more than 256 types x leap seconds)
                 work.push((k, pat, rule_kind));
             }
         }
@@ -775,8 +776,9 @@ fn sweep_many_types(ctx: &Ctx, thorough: bool) -> Tally {
                     })
                     .collect();
                 let times: Vec<i64> = (0..n).map(|j| 8_640_000 + 100_000 * j as i64 + (j % 2) as i64).collect();
-                let rule = if rule_kind == 1 { Some(MRule::Fixed(types[idx[n - 1]])) } else { None };
-                let z = MZone { trans: times.iter().cloned().zip(idx.iter().cloned()).collect(), types, leaps: vec![], rule };
+                let rule = if rule_kind % 2 == 1 { Some(MRule::Fixed(types[idx[n - 1]])) } else { None };
+                let leaps = if rule_kind >= 2 { vec![(5, 1), (8_640_000 + 100_000 * 7 + 50, 2), (8_640_000 + 100_000 * 7 + 50 + 28 * 86400, 1)] } else { vec![] };
+                let z = MZone { trans: times.iter().cloned().zip(idx.iter().cloned()).collect(), types, leaps, rule };
                 let iz = ImplZone::from_model(&z).unwrap();
                 let zr = iz.zref().unwrap();
                 tl.zones += 1;
